@@ -9,6 +9,8 @@ from .common import _run_worker, seed_from_env, tier_from_env
 def _tup(x):
     if isinstance(x, list):
         return tuple(_tup(v) for v in x)
+    if isinstance(x, dict):
+        return {k: _tup(v) for k, v in x.items()}
     return x
 
 
